@@ -476,12 +476,14 @@ fn read_transport(
                         PayloadSlice::Icmpv6(value.payload()),
                     )
                 }),
-            UDP => UdpHeader::from_slice(ip_payload.payload)
+            // UdpSlice validates the length field of the UDP header & cuts
+            // the payload accordingly (same as SlicedPacket)
+            UDP => UdpSlice::from_slice(ip_payload.payload)
                 .map_err(add_len_source)
                 .map(|value| {
                     (
-                        Some(TransportHeader::Udp(value.0)),
-                        PayloadSlice::Udp(value.1),
+                        Some(TransportHeader::Udp(value.to_header())),
+                        PayloadSlice::Udp(value.payload()),
                     )
                 }),
             TCP => TcpHeader::from_slice(ip_payload.payload)
